@@ -105,8 +105,7 @@ def runFrame : Prog α → Nat → Bytes → Res α × Nat
     else
       -- budget smaller than the request: everything up to the budget is
       -- consumed, then the frame reader reports EOF
-      if rem ≤ s.length then
-        (⟨.error (if rem = 0 then .eof else .ueof), s.drop rem⟩, 0)
+      if rem ≤ s.length then (⟨.error .eof, s.drop rem⟩, 0)
       else (⟨.error .ueof, []⟩, rem - s.length)
 
 end FmpRpc
